@@ -86,8 +86,44 @@ def coeffAccess (width : Nat) (dims : List Nat) (k dof : Nat) : Nat :=
 def constAccess (shapes : List (List Nat)) (k : Nat) (idx : List Nat) : Nat :=
   (constOffsets shapes).getD k 0 + flatComponent (shapes.getD k []) idx
 
-/-- `common.tensor_sizes(IntegralIR).w = sum(coeff.ufl_element().dim …)` — NOTE: no `width`. -/
-def tensorSizeW (dims : List Nat) : Nat := dims.sum
+/-! ## tensor_sizes: the extents the numba backend declares for the kernel arguments -/
+
+/-- `KernelTensorSizes` of `common.py`. -/
+structure TensorSizes where
+  A : Nat
+  w : Nat
+  c : Nat
+  coords : Nat
+  localIndex : Nat
+  permutation : Nat
+  deriving Repr, DecidableEq
+
+/-- `tensor_sizes(IntegralIR)`: `width = 2 if ir.expression.integral_type == "interior_facet" else 1`
+(an EQUALITY test, unlike `widthOf`). -/
+def tensorWidth (integralType : String) : Nat := if integralType = "interior_facet" then 2 else 1
+
+/-- `expression_ir["tensor_shape"]` of `_compute_integral_ir`: `[2 * dim …]` for interior facets
+(`== "interior_facet"`), the argument dimensions otherwise; only the first entry when diagonalising. -/
+def integralTensorShape (integralType : String) (argDims : List Nat) (diagonalise : Bool) : List Nat :=
+  let sh := if integralType = "interior_facet" then argDims.map (2 * ·) else argDims
+  if diagonalise then sh.take 1 else sh
+
+/-- `tensor_sizes(ir: IntegralIR)`: `dims` are the element dimensions of the reduced coefficients
+(keys of `coefficient_offsets`), `constShapes` the shapes of the original constants (keys of
+`original_constant_offsets`), `nodes = number_coordinate_dofs` (number of NODES of the coordinate
+element). -/
+def tensorSizesIntegral (integralType : String) (tensorShape dims : List Nat)
+    (constShapes : List (List Nat)) (nodes : Nat) (needsPerm : Bool) : TensorSizes :=
+  let width := tensorWidth integralType
+  { A := shapeProd tensorShape, w := width * dims.sum, c := (constShapes.map shapeProd).sum,
+    coords := width * nodes * 3, localIndex := 2, permutation := if needsPerm then 2 else 0 }
+
+/-- `tensor_sizes(ir: ExpressionIR)`. -/
+def tensorSizesExpr (numPoints : Nat) (shape argDims dims : List Nat)
+    (constShapes : List (List Nat)) (nodes : Nat) (needsPerm : Bool) : TensorSizes :=
+  { A := numPoints * shapeProd shape * shapeProd argDims, w := dims.sum,
+    c := (constShapes.map shapeProd).sum, coords := nodes * 3, localIndex := 2,
+    permutation := if needsPerm then 2 else 0 }
 
 /-! ## original_coefficient_positions -/
 
